@@ -79,13 +79,13 @@ type directedClass struct {
 }
 
 var directedClasses = []directedClass{
-	{"zero-duration", []string{"text-degree", "text-syllable", "yaml"}},
-	{"zero-denominator", []string{"text-degree", "text-syllable", "yaml"}},
+	{"zero-duration", []string{"text-degree", "text-syllable", "yaml", "yaml-event", "yaml-parse", "yaml-conv"}},
+	{"zero-denominator", []string{"text-degree", "text-syllable", "yaml", "yaml-event", "yaml-parse", "yaml-conv"}},
 	{"no-durations", []string{"yaml"}},
-	{"tempo-0", []string{"text-degree", "text-syllable", "yaml"}},
+	{"tempo-0", []string{"text-degree", "text-syllable", "yaml", "yaml-event", "yaml-parse", "yaml-conv"}},
 	{"tempo-not-a-number", []string{"text-degree", "yaml", "flag"}},
-	{"unknown-dynamic", []string{"text-degree", "text-syllable", "yaml", "flag"}},
-	{"unknown-chord-symbol", []string{"text-degree", "text-syllable", "yaml"}},
+	{"unknown-dynamic", []string{"text-degree", "text-syllable", "yaml", "flag", "yaml-event", "yaml-parse", "yaml-conv"}},
+	{"unknown-chord-symbol", []string{"text-degree", "text-syllable", "yaml", "yaml-event", "yaml-parse", "yaml-conv"}},
 	{"unknown-modifier", []string{"flag"}},
 	{"key-without-scale", []string{"text-degree", "text-syllable", "yaml", "flag", "flag-syllable", "flag-info"}},
 	{"key-garbage", []string{"text-degree", "text-syllable", "yaml", "flag", "flag-syllable"}},
@@ -95,7 +95,8 @@ var directedClasses = []directedClass{
 	{"zero-denominator-meter", []string{"text-degree", "yaml", "flag"}},
 	{"impossible-interval", []string{"text-degree", "yaml", "yaml-base"}},
 	{"degree-zero", []string{"text-degree", "yaml"}},
-	{"null-instance", []string{"yaml"}},
+	{"null-instance", []string{"yaml", "yaml-event", "yaml-parse", "yaml-conv"}},
+	{"zero-default-flag", []string{"flag-bpm-0", "flag-velocity-empty", "flag-meter-empty", "flag-key-empty", "flag-all"}},
 	{"inconsistent-dictionary", []string{"dict-write", "dict-write-event", "dict-write-parse", "dict-write-conv", "dict-chord-describe", "dict-attr-describe"}},
 }
 
@@ -118,6 +119,10 @@ func checkC09Directed(c C09Directed) *Violation {
 	items := append([]PItem{}, c.Items...)
 	if len(items) == 0 {
 		return vio("harness", "no context")
+	}
+	origChannel := c.Channel
+	if strings.HasPrefix(c.Channel, "yaml-") && c.Channel != "yaml-empty-list" && c.Channel != "yaml-base" {
+		c.Channel = "yaml" // same document, given to another command of the write family (restored below)
 	}
 	at := c.At % len(items)
 	seed := len(items)*7 + at
@@ -292,6 +297,34 @@ func checkC09Directed(c C09Directed) *Violation {
 			yamlOverride = strings.Replace(doc.YAML(), "degree: "+yq(ivText(doc.Insts[j].Chord.Deg, false)), "degree: \"0\"", 1)
 			firstFailing = "write"
 		}
+	case "zero-default-flag":
+		// a flag set to its empty / zero default means "no override": same bytes as without the flag,
+		// and in particular never a tempo of 0
+		var extra []string
+		switch c.Channel {
+		case "flag-bpm-0":
+			extra = []string{"--bpm", "0"}
+		case "flag-velocity-empty":
+			extra = []string{"--velocity", ""}
+		case "flag-meter-empty":
+			extra = []string{"--meter", ""}
+		case "flag-key-empty":
+			extra = []string{"--key", ""}
+		case "flag-all":
+			extra = []string{"--bpm", "0", "--velocity", "", "--meter", "", "--key", ""}
+		}
+		sub := [][]string{{"write"}, {"write", "event"}, {"write", "parse"}}[seed%3]
+		plain := Run{Argv: sub, Stdin: doc.YAML()}.Exec()
+		with := Run{Argv: append(append([]string{}, sub...), extra...), Stdin: doc.YAML()}.Exec()
+		for _, x := range []Result{plain, with} {
+			if v := cleanOutcome(x); v != nil {
+				return v
+			}
+		}
+		if plain.Exit != with.Exit || string(plain.Stdout) != string(with.Stdout) {
+			return vio("zero-default-flag-overrides", "`crd %s %s` differs from `crd %s`: exit %d/%d, %d/%d bytes (a flag at its zero default must mean no override)\n%s", strings.Join(sub, " "), strings.Join(extra, " "), strings.Join(sub, " "), with.Exit, plain.Exit, len(with.Stdout), len(plain.Stdout), clip(doc.YAML(), 600))
+		}
+		return nil
 	case "inconsistent-dictionary":
 		kind := pickFrom(seed, badDictKinds)
 		chords, attrs := badDictExtra(kind)
@@ -363,6 +396,14 @@ func checkC09Directed(c C09Directed) *Violation {
 			return nil // refused even earlier than required: fine
 		}
 		y = string(conv.Stdout)
+	}
+	switch origChannel {
+	case "yaml-event":
+		writeArgs = []string{"write", "event"}
+	case "yaml-parse":
+		writeArgs = []string{"write", "parse"}
+	case "yaml-conv":
+		writeArgs = []string{"write", "conv", "-c", "cmt"}
 	}
 	wr := Run{Argv: writeArgs, Stdin: y}.Exec()
 	if v := mustFail(wr, what+fmt.Sprintf(": `crd %s` on\n%s", strings.Join(writeArgs, " "), clip(y, 1500))); v != nil {
